@@ -9,6 +9,7 @@ package checks
 
 import (
 	"fmt"
+	s3db "github.com/jrhy/s3db"
 	"strings"
 	"testing"
 
@@ -35,6 +36,10 @@ type C14Case struct {
 	// transaction; the remaining statements run and the transaction is committed. Only
 	// single-row statements (a multi-row statement cut short keeps its first rows: K3)
 	Continue bool `json:"continue,omitempty"`
+	// Reread: after every fault run every version name recorded during the prefix is opened
+	// again (restricted to that version) and must still give its recorded rows (C11: a commit
+	// that retires versions under a fault must not lose them)
+	Reread bool `json:"reread,omitempty"`
 }
 
 func genC14Case(t *rapid.T) C14Case {
@@ -71,6 +76,7 @@ func genC14Case(t *rapid.T) C14Case {
 	case "select", "point", "range", "refresh", "version", "changes", "create":
 		c.RO = rapid.IntRange(0, 2).Draw(t, "ro") != 0
 	}
+	c.Reread = c.Target != "vacuum" && rapid.IntRange(0, 2).Draw(t, "reread") == 0
 	if c.Target == "vacuum" || rapid.IntRange(0, 3).Draw(t, "withLate") == 0 {
 		lcfg := cfg
 		lcfg.multiRow = false
@@ -87,7 +93,9 @@ type c14Result struct {
 	after MSet // model contents if the statement took effect
 	acked bool
 	// skipped: statements of a continued transaction that failed with a storage error
-	skipped int
+	skipped      int
+	created      TableSpec // target create: the definition that was tried
+	createFailed bool
 }
 
 // c14Handle: a fresh read-write table on a copy of the bucket, client "tgt".
@@ -173,6 +181,7 @@ func (h *c14Handle) runTarget(c C14Case, view MSet, snaps []verSnap) c14Result {
 		sp := h.spec
 		sp.Name, sp.ReadOnly = n2, false
 		res.err = h.conn.Create(sp)
+		res.created, res.createFailed = sp, res.err != nil
 		if res.err == nil {
 			res.rows, res.err = h.conn.Dump(n2)
 		}
@@ -452,6 +461,37 @@ func runC14(c C14Case, o *Obs) error {
 			h.close()
 			return fmt.Errorf("%s: the write reported success but a fresh connection does not see it.\nexpected:\n%snow:\n%s", desc, after, fresh)
 		}
+		// a CREATE that failed can be repeated under the same name
+		if c.Target == "create" && res.createFailed {
+			if s3db.GetTable(res.created.Name) != nil {
+				h.close()
+				return fmt.Errorf("%s: CREATE failed (%v) but the table name stays registered", desc, res.err)
+			}
+			if err := h.conn.Create(res.created); err != nil {
+				h.close()
+				return fmt.Errorf("%s: the CREATE that failed under the fault cannot be repeated after the fault cleared: %v", desc, err)
+			}
+			o.Class("create-repeated-after-fault")
+		}
+		// versions recorded before the statement are still what they were
+		if c.Reread && c.Target != "vacuum" {
+			for _, sn := range r.snaps {
+				names := parseVersionList(sn.Version)
+				if len(names) == 0 {
+					continue
+				}
+				rows, err := rowsOfVersion(h.b, "", names)
+				if err != nil {
+					h.close()
+					return fmt.Errorf("%s: version %s, recorded before the statement, can no longer be opened: %v", desc, sn.Version, err)
+				}
+				if !rows.Equal(sn.Rows) {
+					h.close()
+					return fmt.Errorf("%s: version %s no longer gives its recorded rows.\nrecorded:\n%snow:\n%s", desc, sn.Version, sn.Rows, rows)
+				}
+			}
+			o.ClassN("old-versions-reread-after-fault", len(r.snaps))
+		}
 		// and it can write again
 		if err := h.conn.SetWriteTime(baseTime + 70*256); err != nil {
 			h.close()
@@ -494,4 +534,32 @@ func init() { register("TestC14_Faults", runC14) }
 func TestC14_Faults(t *testing.T) {
 	st := newStats(t, "C14", "TestC14_Faults", "a committed prefix history by 1-2 writers (entries_per_node 2-4096), then one target statement on a fresh read-write handle: full/point/descending-range SELECT, autocommit write, BEGIN..COMMIT of 1-3 statements, s3db_refresh, s3db_version, SELECT from an s3db_changes table, s3db_vacuum, CREATE of a further table on the prefix (opens that merge when 2 versions are unmerged); for every vacuum target and a quarter of the others a further writer, opened before the target handle, commits one statement after the target handle was opened, so the target runs on a handle that has not merged a current sibling version (vacuum with a year-2100 cutoff then deletes history next to a retained, unmerged version); a fault-free reference run gives the result and the request count R; the statement is re-run for EVERY p<R with a single transport error at p and with every request from p on failing, and once with the connection deadline in the past; each run: error or exactly the reference result, bounded request count (<=50R+1000), no panic, then after clearing the fault s3db_refresh on the same connection and a fresh connection agree, show exactly the contents before or after the statement (after if it reported success), and a follow-up INSERT succeeds and is visible; non-trivial = fault on a GET of a scan/merge/diff on a tree of height>=1, or strictly inside a write/commit/vacuum")
 	checkRapid(t, st, genC14Case, runC14)
+}
+
+// The same runner under C11: targets that commit (and so retire versions), always with the
+// re-read of every recorded version after each fault run.
+func genC11FaultCase(t *rapid.T) C14Case {
+	c := genC14Case(t)
+	c.Target = rapid.SampledFrom([]string{"write", "txn", "refresh", "create"}).Draw(t, "c11target")
+	c.RO, c.Reread = false, true
+	if (c.Target == "write" || c.Target == "txn") && len(c.Stmts) == 0 {
+		cfg := stmtGenCfg{keys: intKeys(c.Prefix.NKeys), cols: wideCols, vals: rapid.SampledFrom([]Val{vNull(), vInt(1), vInt(2)}), multiRow: false, wIns: 4, wUpd: 3, wDel: 3}
+		s := genStmt(t, cfg, "c11t")
+		s.T = int64(60 * 256)
+		c.Stmts = []Stmt{s}
+	}
+	if c.Target != "txn" {
+		c.Continue = false
+	}
+	if c.Target == "write" && len(c.Stmts) > 1 {
+		c.Stmts = c.Stmts[:1] // one autocommit statement is one commit
+	}
+	return c
+}
+
+func init() { register("TestC11_UnderFaults", runC14) }
+
+func TestC11_UnderFaults(t *testing.T) {
+	st := newStats(t, "C11", "TestC11_UnderFaults", "the fault-enumeration runner of C14 restricted to statements that commit and so retire the versions they merged (autocommit write, BEGIN..COMMIT, s3db_refresh and CREATE on a read-write handle over a frontier of 1-3 unmerged versions): for EVERY request index p of the statement, with a single transport error at p and with every request from p on failing, after the fault has cleared every version name recorded during the prefix history is opened again restricted to that version and must give exactly its recorded rows (no vacuum ran, so nothing may have been reclaimed); non-trivial as for C14")
+	checkRapid(t, st, genC11FaultCase, runC14)
 }
